@@ -73,6 +73,9 @@ struct RcvdJournal {
 }
 
 impl RcvdJournal {
+    /// The largest number of packet numbers a received packet may skip.
+    const MAX_PN_GAP: u64 = 1 << 16;
+
     fn with_capacity(capacity: usize, max_ack_delay: Option<Duration>) -> Self {
         Self {
             queue: IndexDeque::with_capacity(capacity),
@@ -87,6 +90,11 @@ impl RcvdJournal {
         let pn = pkt_number.decode(expected_pn);
         if pn < self.queue.offset() {
             return Err(InvalidPacketNumber::TooOld);
+        }
+        // One record is kept for every packet number between the oldest tracked and the largest
+        // received, so the jump a single packet may cause has to be bounded.
+        if pn.saturating_sub(expected_pn) > Self::MAX_PN_GAP {
+            return Err(InvalidPacketNumber::TooLarge);
         }
 
         match self.queue.get(pn) {
